@@ -1,5 +1,5 @@
 # Table of claimed properties; executed by gen_manifest.py
-hook_commits = []
+hook_commits = ["4fbb1bd"]
 not_applicable = {}
 claimed["C16"] = dict(
     technique="exhaustive lattice enumeration + rapid property-based testing against a big-integer/IEEE for-loop model",
